@@ -141,8 +141,12 @@ func (e *Encoder) Reset(viewbox ivg.ViewBox, palette [64]color.RGBA) {
 		// explicit colors.
 		enc1, enc2, enc3 := true, true, true
 		for _, c := range m.Palette[:n+1] {
-			if enc1 && !ivg.Is1(c) {
-				enc1 = false
+			if enc1 {
+				// Is1 also holds for translucent colors such as 40:40:40:40
+				// that have no 1 byte encoding.
+				if _, ok := ivg.RGBAColor(c).Encode1(); !ok || !ivg.Is1(c) {
+					enc1 = false
+				}
 			}
 			if enc2 && !ivg.Is2(c) {
 				enc2 = false
